@@ -45,6 +45,9 @@ func c16FailEdges(g *an.Graph, okEdges an.Set) []*an.Node {
 func c16FailureReported(g *an.Graph, site an.Site) (bool, string) {
 	okE := g.ErrNilEdges(site)
 	if len(okE) == 0 {
+		if c16ErrorHandedBack(g, site) {
+			return true, ""
+		}
 		return false, "the error result is not tested"
 	}
 	r := g.Reach(c16FailEdges(g, okE), nil)
@@ -58,6 +61,70 @@ func c16FailureReported(g *an.Graph, site an.Site) (bool, string) {
 		return false, "a failure can reach a normal exit"
 	}
 	return true, ""
+}
+
+// c16ErrorHandedBack: the error result of the call at site is not tested
+// because it is the error result of the enclosing function: the call is the
+// operand of a return statement ( return f(x) ), or its error is stored in a
+// variable that every path from the call to an exit returns unchanged
+// ( err := f(x); ...; return err ).  A failure of the call is then a failure
+// of the function, exactly as with  if err != nil { return err }.
+func c16ErrorHandedBack(g *an.Graph, site an.Site) bool {
+	info := g.Fn.Info()
+	isErr := func(t types.Type) bool {
+		return t != nil && types.Identical(t, types.Universe.Lookup("error").Type())
+	}
+	ft := g.Fn.Type
+	if ft == nil || ft.Results == nil || ft.Results.NumFields() == 0 {
+		return false
+	}
+	nRes := ft.Results.NumFields()
+	if !isErr(info.TypeOf(ft.Results.List[len(ft.Results.List)-1].Type)) {
+		return false
+	}
+	// position of the error among the results of the call
+	errIdx := -1
+	switch t := info.TypeOf(site.Call).(type) {
+	case *types.Tuple:
+		if t.Len() > 0 && isErr(t.At(t.Len()-1).Type()) {
+			errIdx = t.Len() - 1
+		}
+	default:
+		if isErr(t) {
+			errIdx = 0
+		}
+	}
+	if errIdx < 0 {
+		return false
+	}
+	if ret, ok := site.Node.Ast.(*ast.ReturnStmt); ok && site.Node.Kind == an.KStmt {
+		// return f(x)  /  return a, f(x): the call supplies the function's last result
+		if len(ret.Results) == 1 && ast.Unparen(ret.Results[0]) == ast.Expr(site.Call) {
+			return errIdx == nRes-1
+		}
+		return errIdx == 0 && len(ret.Results) == nRes && ast.Unparen(ret.Results[nRes-1]) == ast.Expr(site.Call)
+	}
+	v := g.ResultVarAt(site, errIdx)
+	if v == nil || g.InLoop(site.Node) {
+		return false // in a loop a later iteration would overwrite the stored error
+	}
+	n := 0
+	for _, pr := range g.Exit.Preds {
+		if !g.Reachable(site.Node, pr) {
+			continue
+		}
+		ret, ok := pr.Ast.(*ast.ReturnStmt)
+		if !ok || pr.Kind != an.KStmt || len(ret.Results) != nRes || an.ObjOf(info, ret.Results[nRes-1]) != v {
+			return false
+		}
+		for m := range g.Between(site.Node, pr) {
+			if m.Kind == an.KStmt && an.Assigns(info, m.Ast, v) {
+				return false
+			}
+		}
+		n++
+	}
+	return n > 0
 }
 
 // ---------------------------------------------------------------------------
